@@ -149,10 +149,17 @@ def phase_cases(exe, scratch, rng, log=None):
              "D": lambda evs: has("create", "W4")(evs) and bool(evs) and evs[-1][:2] == ["wait", "tc"]}
     base = drive(exe, scratch, skel, [("goals", goals, ["W0", "W1", "W2", "W3", "D"])])
     variants = [("asis", []), ("wdog-holds-thd", [("run", "G", 1)]), ("worker-holds-thd", [("run", "W4", 1)]),
-                ("worker-holds-tc", [("run", "W1", 2)]), ("wdog-mid-scan", [("run", "G", 5)])]
+                ("worker-holds-tc", [("run", "W1", 2)]), ("wdog-mid-scan", [("run", "G", 5)]), ("pdcp", [])]
+    skel0 = skel
     for vname, extra in variants:
         key = "phases/" + vname
-        pre = drive(exe, scratch, skel, extra, prefix=base) if base is not None else None
+        skel = skel0
+        if vname == "pdcp":
+            # the copy personality: the workers are _rcp_thread (same protocol, its own code), steered from scratch
+            skel = dict(skel0, opts=dict(OPTS, pers="pcp"))
+            pre = drive(exe, scratch, skel, [("goals", goals, ["W0", "W1", "W2", "W3", "D"])])
+        else:
+            pre = drive(exe, scratch, skel, extra, prefix=base) if base is not None else None
         if pre is None:
             report[key] = "unreachable"
             continue
